@@ -21,24 +21,35 @@ OBLIGATIONS = ['PGA.Thermo.' + t for t in [
     'C05_incomplete_delegates', 'C05_incomplete_consistent', 'C05_intCp_is_extension', 'C05_intCpT_is_extension',
     'F5_breaks_reference_value', 'F6_breaks_order_independence', 'exIp_good', 'exIp_hits']] + [
     'PGA.CorrHistory.' + t for t in [
-    'HIST_constructed_fresh', 'HIST_step_preserves', 'HIST_invariant', 'HIST_freshS_fresh', 'HIST_failed_update_unchanged',
+    'HIST_constructed_fresh', 'HIST_step_preserves', 'HIST_invariant', 'HIST_invariant_every_step', 'HIST_freshS_fresh', 'HIST_failed_update_unchanged',
     'HIST_delCp_absent', 'HIST_failed_delCp_unchanged', 'HIST_setRange_reversed', 'HIST_never_raise', 'HIST_failed_op_state',
     'HIST_eval_pure', 'HIST_eval_interleaving', 'HIST_history_independent', 'HIST_history_vs_constructor',
-    'HIST_estimate_independent', 'HIST_update_refines_C13', 'HIST_delCp_old_breaks', 'HIST_setRange_old_breaks']]
+    'HIST_estimate_independent', 'HIST_update_refines_C13', 'HIST_translation_is_C05_partial', 'HIST_reference_is_C05',
+    'HIST_translation_full_fails', 'HIST_delCp_old_breaks', 'HIST_setRange_old_breaks']]
 RULE = ('cases = (correlation, evaluation temperature, property) triples. Correlations: tables of 1..16 points (equal/unequal '
         'spacing, shuffled supply order, random or constant Cp/R) x range present / absent / degenerate x the reference '
         'temperature in each of six placements (below the table, at its first point, between knots, at an interior knot, at '
         'its last point, above) x class (ThermochemRawData, ThermochemIncomplete, ThermochemGroup); evaluation temperatures in '
         'the same six placements plus the range ends; every group of every shipped library. Distinct = distinct (class, table '
         'size, range kind, T_ref placement, T placement, property); non-trivial = the table has >= 2 points or T_ref/T lie '
-        'outside the tabulated span.')
+        'outside the tabulated span. Histories (Props/CorrHistory): 10 scripted + 300 (quick) / 2 500 (thorough) random sequences of 1..12 '
+        '(1..24) calls of update / del_ND_Cp(T) / del_ND_Cp() / del_ND_*_ref / set_range / copy / getters on ThermochemIncomplete and '
+        'ThermochemGroup, each call drawn against the data the object holds at that point (temperatures from a pool of 13, so that '
+        'operands meet equal and conflicting points; about a quarter of the mutating calls are refused: ReadOnlyDataError, ValueError, '
+        'KeyError, AssertionError); distinct = distinct (length, set of call kinds, set of outcome classes).')
 ASSUMPTIONS = ['A-spline: InterpolatedUnivariateSpline interpolates the table; spline.integral is additive/antisymmetric (1e-10); '
                'quad(spline/t) is additive and agrees with exact integration of the PPoly form (1e-5 of the scale; measured worst 1.4e-6) — re-validated on every run',
                'A-float: doubles are read as exact rationals; + - * / modelled exactly (DESIGN 2.3); tolerance 1e-9 x sum|terms|',
-               'temperatures are positive inside the validity range (0 < range lower end), as for every shipped group']
+               'temperatures are positive inside the validity range (0 < range lower end), as for every shipped group',
+               'histories: reference temperatures are positive (the C13 model of update, reused by the state machine, is exact only for '
+               'T_ref != 0: HIST_translation_full_fails); float noise in a translated reference value (1e-9 of the scale) never decides an '
+               'isclose(rel_tol=1e-15) comparison (generated reference values are equal or differ by >= 0.01)']
 TRUSTED = ['modelled, not verified: ThermochemRawData.__init__/get_CpoR/get_SoR/get_HoRT, ThermochemIncomplete.__init__/'
            '_setup_correlation/get_*, ThermochemBase.check_range/get_GoRT',
-           'SciPy spline, QUADPACK and np.log enter the model as parameters constrained by Interp.Good / Interp.Hits (A-spline)']
+           'SciPy spline, QUADPACK and np.log enter the model as parameters constrained by Interp.Good / Interp.Hits (A-spline)',
+           'modelled, not verified (histories): ThermochemIncomplete.update / del_ND_Cp / del_ND_H_ref / del_ND_S_ref / set_range / copy, '
+           'ThermochemBase.set_range; the interpolant is a function of the sorted table (the oracle values come from a spline the '
+           'harness builds from the table, not from the object under test)']
 
 KINDS = ('raw', 'inc', 'grp')
 
@@ -609,7 +620,10 @@ REACH_EXEMPT = {'raw_data.get_CpoR': 1, 'incomplete._setup_correlation': 1, 'inc
 FLOORS = {'tref_below': 8, 'tref_at_min': 8, 'tref_between': 8, 'tref_at_knot': 8, 'tref_at_max': 8, 'tref_above': 8,
           'T_below': 20, 'T_at_min': 20, 'T_between': 20, 'T_at_knot': 20, 'T_at_max': 20, 'T_above': 20,
           'T_outside_below': 20, 'T_outside_above': 20, 'mk_value': 20, 'mk_assertion': 5, 'impl_h_incomplete': 10,
-          'impl_s_incomplete': 10, 'impl_h_outside': 10, 'exact_mode': 500, 'shipped_groups': 60, 'size_01': 4, 'size_16': 4}
+          'impl_s_incomplete': 10, 'impl_h_outside': 10, 'exact_mode': 500, 'shipped_groups': 60, 'size_01': 4, 'size_16': 4,
+          'hist_histories': 300, 'hist_model_steps': 1500, 'hist_op_update': 300, 'hist_op_delCp': 150, 'hist_op_setRange': 150,
+          'hist_op_copy': 60, 'hist_op_delH': 40, 'hist_res_raised:readOnly': 60, 'hist_res_raised:value': 60,
+          'hist_res_raised:key': 40, 'hist_res_raised:assertion': 12, 'hist_update_other_Tref_done': 10, 'hist_model_h_ok': 2000}
 
 
 def check_reach(ctx, reach, floors, exempt):
@@ -643,7 +657,7 @@ def run_inner(ctx):
         ctx.count('corpus')
         replay(ctx, rec)
     # the correlation object as a state machine (Props/CorrHistory.lean): random and scripted histories of the public API
-    H.run(ctx, ctx.n(300, 4000), 12 if not ctx.thorough() else 30)
+    H.run(ctx, ctx.n(300, 2500), 12 if not ctx.thorough() else 24)
     batch = []
     grid(ctx, batch, acc, ctx.n(2, 24))
     constructor_cases(ctx, batch, ctx.n(120, 2000))
@@ -724,7 +738,10 @@ LEVEL_TEXT = ('Lean 4 theorems for every table of any length >= 1 in any supply 
               'T_ref, the enthalpy and entropy integral identities against a declarative extended-Cp integral, tabulated Cp reproduced, '
               'G = H - S, independence of the supply order, delegation of ThermochemIncomplete/Group; the model is tied to the code by a '
               'correspondence run over the exhaustive placement grid with the live SciPy values as oracle and an exact-rational mode. '
-              'Right level: the quantifier is over all tables/placements/temperatures, which only a proof covers; the spline itself is external.')
+              'Right level: the quantifier is over all tables/placements/temperatures, which only a proof covers; the spline itself is external. '
+              'Histories: Lean theorems (HIST_*) for every sequence of public calls of any length on any constructed correlation: the object '
+              'stays what the constructor builds from the data it holds, a call that raises leaves it unchanged, getters never change it, the '
+              'answers depend on the held data only; tied by running sampled histories on the real classes and through the model.')
 LEVEL_NOTE = ('Trusted: Lean kernel; axioms propext/Classical.choice/Quot.sound; the correspondence harness; the decimal/rational '
               'abstraction of doubles (finiteness of floats is observed, not proved); assumption A-spline on SciPy (interpolation, additivity '
               'of spline.integral and of quad, re-validated numerically each run). Modelled not verified: raw_data.py, incomplete.py evaluation '
